@@ -12,7 +12,8 @@ every variant V (committed as its own revision on top of BASE):
   this=base  : merge(THIS=BASE, OTHER=V)      == V,  no conflicts
   same       : merge(THIS=V, OTHER=V' same tree, separate commit) == V, no conflicts
   disjoint   : merge(THIS=V1, OTHER=V2), changed id sets disjoint and the union a tree
-               == union, no conflicts   (pairs of <=1-edit variants; thorough: 1+2 edits)
+               == union, no conflicts   (all ordered pairs of 1-edit variants; thorough adds
+               THIS = 2 edits / OTHER = 1 edit on all bases and the swapped order on bases 0, 3)
 bzr (2a) trees and git trees as separate sub-runs with separate signatures; merge3 everywhere,
 weave and lca on the <=1-edit variants (quick) / all variants (thorough) for the first three
 laws and on the single-edit pairs of the disjoint law (quick: base 3 only).  Expected trees come from a pure
@@ -316,7 +317,7 @@ def judge(obs, expected, fmt):
     return None
 
 
-def instances(variants, vi, cfg, fmt):
+def instances(variants, vi, cfg, fmt, bi):
     """Law instances whose THIS (or, for this=base, OTHER) is variant vi:
     yields (law, this_vi, other_vi, other_which, expected tree, kinds)."""
     base = variants[0][0]
@@ -341,7 +342,7 @@ def instances(variants, vi, cfg, fmt):
         if fmt == "git" and not model.paths_disjoint(model.touched_paths(base, tree), model.touched_paths(base, otree)):
             continue
         yield ("disjoint", vi, oj, "v", u, kinds + okinds)
-        if len(labels) > cfg["disjoint_other_len"]:
+        if len(labels) > cfg["disjoint_other_len"] and bi in cfg["disjoint_swapped_bases"]:
             yield ("disjoint", oj, vi, "v", u, kinds + okinds)
 
 
@@ -371,7 +372,7 @@ def _work(chunk):
                 worlds[(fmt, bi)] = World(fmt, bi, variants)
             w = worlds[(fmt, bi)]
             tree, labels, kinds = variants[vi]
-            for law, tv, ov, which, expected, ikinds in instances(variants, vi, _CFG, fmt):
+            for law, tv, ov, which, expected, ikinds in instances(variants, vi, _CFG, fmt, bi):
                 for mname in MERGERS:
                     if mname != "merge3" and (len(labels) > _CFG["alt_merger_len"] or (
                             law == "disjoint" and (bi not in _CFG["alt_merger_disjoint_bases"] or len(ikinds) > 2))):
@@ -457,10 +458,10 @@ def run(ctx):
     # alternative merge types (weave, lca) go
     if ctx.thorough:
         _CFG.update(lens=[2, 2, 2, 2], disjoint_this_len=2, disjoint_other_len=1, alt_merger_len=2,
-                    alt_merger_disjoint_bases=(0, 1, 2, 3))
+                    alt_merger_disjoint_bases=(0, 1, 2, 3), disjoint_swapped_bases=(0, 3))
     else:
         _CFG.update(lens=[2, 1, 1, 2], disjoint_this_len=1, disjoint_other_len=1, alt_merger_len=1,
-                    alt_merger_disjoint_bases=(3,))
+                    alt_merger_disjoint_bases=(3,), disjoint_swapped_bases=())
     fmts = ("bzr", "git")
     items = []
     nvar = {}
@@ -505,3 +506,29 @@ def _work_shards(chunk):
     for shard in chunk:
         acc.merge(_work(shard))
     return acc
+
+
+def replay(ctx, data):
+    """Re-run the one recorded instance; True if the law holds for it."""
+    import logging
+    logging.getLogger("brz").setLevel(logging.CRITICAL)
+    d = data["first"]
+    _CFG.update(lens=[2, 2, 2, 2])
+    bi, fmt = d["base"], d["format"]
+    variants = get_variants(bi)
+    by_label = {tuple(v[1]): i for i, v in enumerate(variants)}
+    tv, ov = by_label[tuple(d["this"])], by_label[tuple(d["other"])]
+    base = variants[0][0]
+    if d["law"] == "disjoint":
+        expected = model.union(base, variants[tv][0], variants[ov][0])
+    else:
+        expected = variants[tv if d["law"] != "this=base" else ov][0]
+    w = World(fmt, bi, variants)
+    try:
+        cond, obs = merge_once(w, tv, ov, "w" if d["law"] == "same" else "v", d["merger"])
+        if cond is None:
+            cond = judge(obs, expected, fmt)
+        print("  instance: %s base %d THIS=%r OTHER=%r %s -> %s" % (fmt, bi, d["this"], d["other"], d["merger"], cond or "ok"))
+        return cond is None
+    finally:
+        w.close()
